@@ -825,6 +825,15 @@ impl<'a> StrictReader<'a> {
         // ---- merge newest-first and verify every in-use entry of every section
         let mut referenced_offsets: BTreeSet<usize> = BTreeSet::new();
         let mut containers: BTreeSet<u32> = BTreeSet::new();
+        // Size of a section: one greater than the highest object number defined in the file up to and including
+        // that revision, i.e. by this section and all sections reachable through Prev (ISO 32000-1 Table 15)
+        for (k, s) in sections.iter().enumerate() {
+            if let Some(n) = sections[k..].iter().flat_map(|o| o.entries.iter().filter(|(_, e)| !matches!(e, Entry::Free)).map(|(n, _)| *n)).max() {
+                if n >= s.size {
+                    return Err(format!("Size {} of the section at byte {} does not exceed object number {} defined by it or an earlier revision", s.size, s.offset, n));
+                }
+            }
+        }
         for s in &sections {
             if let Some(x) = s.xref_stream_id {
                 containers.insert(x);
